@@ -68,6 +68,27 @@ CHECKS = {
          "Inputs to &str/String entry points are lossily converted to UTF-8; 2 MiB stack as the server's workers; the two legacy underscore-prefixed readers without an error channel (Response::_parse_response, Range::_parse_multipart_body) are not counted as entry points the library offers.", "DESIGN.md §4 C20"),
 }
 
+# what the later rounds of seeded changes added to each check (DESIGN.md section 10.5), appended to the level text
+ADDENDA = {
+ "C01": "6 % of the targets are written without the leading slash (among them what a sibling's name has after the root's name); sibling files root+.bak / -private.txt / .html are planted; a quarter of the production-entry requests go to the real binary.",
+ "C02": "After the first pass the tree is edited while the server is up (a file rewritten with another length, one deleted, files created where 404 was answered) and the affected paths are requested again; longer names of the special routes are requested; names extending special routes and the index page's name in other letter case occur as ordinary files; file modification times are generated (future, epoch start, before the epoch).",
+ "C03": "8 % of the cases rewrite the file in place after it was served once; a 206 for a range outside the file must lie inside what one of the specs asked for, read with arbitrary precision.",
+ "C04": "Sections far-beyond-the-buffer (requests 10 KB to 650 KB longer than the buffer through the real binary), aborted-before-accept (connections reset / half-sent and reset / closed in the backlog of the stopped binary, then a probe) and beside-an-idle-connection; a sound narrow pre-parser demands an error status for multipart forms with an unusable part disposition.",
+ "C05": "Sections transport-binary (real TCP, slowly reading client, request tails of up to 700 KB written while the response is read) and paused-reader (32 MiB response, the reader stops for 16 s quick / up to 91 s thorough).",
+ "C06": "Sections quiet-periods (6.5 s quick / up to 61 s thorough without client activity) and descriptor-exhaustion (floods of 100-200 silent connections against servers limited to 40-80 file descriptors).",
+ "C07": "Section native-after-idle (pools idle for 0 ms to 6.5 s quick / 61 s thorough, then N-1 gated tasks and one reporting task, causal verdict); a quarter of the shuttle cases release the pool handle right after the last submission; shuttle's depth-first scheduler enumerates eleven small configurations.",
+ "C08": "Network cases may hold 1-3 silent peers during the concurrent phase (differential, repeated verdict); section queued-for-a-long-while (a request waits 11 s quick / up to 61 s thorough behind a silent peer); fresh docroot / layered configuration modes; relative links below the root.",
+ "C09": "A third of the in-process trees run under a generated restricted CORS configuration (HEAD = GET header for header; OPTIONS from a listed origin must carry the configured grants); Origins on the request's own host; preflights for header names with digits and punctuation; a quarter of the trees through the real binary.",
+ "C10": "Section cold-start-burst (fresh process, up to 32 threads released into Server::process through one barrier).",
+ "C11": "A third of the cases hand the configuration over as an rws.config.toml text through the library's reader; an unconfigured credentials flag is an absent variable in two thirds of its cases; max-age spellings -1, 0600, 7200.5, 1e3, abc, empty.",
+ "C12": "Numeric settings draw from four value pools (smallest legal, powers of two, large); layout whitespace and comment styles of the file are generated.",
+ "C13": "A fifth of the network sequences end with the served directory being removed by a third party and four more requests; generated modification times; index-page names in other letter case; link chains.",
+ "C15": "Content types of the multipart family other than byteranges and near misses of it; long and non-ASCII header values.",
+ "C17": "One form in twelve carries a filler field of 7 to 9.8 KB; the echo routes run whenever the whole request fits the 10000-byte buffer.",
+ "C18": "Section low-entropy-strings (alphabets of one to three symbols incl. zero, runs, repeated short blocks); section encode-long (to 70,000 bytes).",
+ "C20": "38 entry points now (Range::parse_content_range and the raw content-range reader added); Mut::Case flips letter case.",
+}
+
 NOT_YET = "check not built yet in this commit (see DESIGN.md §9 implementation order); will be claimed when its generator and oracle are in place"
 
 def hook_commits():
@@ -108,7 +129,7 @@ for pid in ALL:
           "evidence_file": "/verif/evidence/%s.json" % pid,
           "replay_cmd_template": "./check %s --replay {path}" % pid,
           "engine": eng,
-          "level_claimed": {"category": "exploration", "text": text, "design_ref": ref},
+          "level_claimed": {"category": "exploration", "text": (text + " Added by the later rounds of seeded changes: " + ADDENDA[pid]) if pid in ADDENDA else text, "design_ref": ref},
           "level_note": note,
           "technique": tech,
         })
